@@ -10,6 +10,7 @@ import (
 	"sort"
 	"strings"
 	"sync"
+	"sync/atomic"
 	"time"
 
 	"govc/smt"
@@ -32,6 +33,7 @@ type SolveConfig struct {
 	Jobs    int
 	Keep    bool
 	Confirm bool // thorough: second solver must confirm quantifier-free obligations
+	StopOnFail bool // selftest: one failed obligation is enough, skip the rest
 }
 
 type solverSpec struct {
@@ -50,7 +52,7 @@ func runSolver(ctx context.Context, s solverSpec, file string, timeout time.Dura
 	defer cancel()
 	args := append([]string{}, s.cmd[1:]...)
 	switch s.name {
-	case "z3", "z3-new":
+	case "z3", "z3-new", "z3-new-int":
 		args = append(args, fmt.Sprintf("-T:%d", int(timeout.Seconds())+1))
 	case "cvc5":
 		args = append(args, fmt.Sprintf("--tlimit=%d", timeout.Milliseconds()))
@@ -92,6 +94,12 @@ func (p *Prog) assemble(q *Query) []*smt.Term {
 	}
 	if len(errs) > 0 {
 		as = append(as, smt.Distinct(append([]*smt.Term{NilIface}, errs...)...))
+	}
+	// defining axioms of named all-zero arrays
+	for _, c := range smt.Consts(as...) {
+		if ax, ok := p.T.ZeroAxiom[c.Name]; ok {
+			as = append(as, ax)
+		}
 	}
 	return as
 }
@@ -186,6 +194,9 @@ func (p *Prog) solve(pr *prepared, cfg SolveConfig) *Outcome {
 	var mu sync.Mutex
 	run := func(sv, file, tag string, tmo time.Duration) string {
 		st, out, d := runSolver(ctx, solvers[sv], file, tmo)
+		if sv == "z3-new-int" && st == "sat" {
+			st = "unknown"
+		}
 		mu.Lock()
 		defer mu.Unlock()
 		o.Time += d
@@ -215,9 +226,14 @@ func (p *Prog) solve(pr *prepared, cfg SolveConfig) *Outcome {
 		}
 		// race z3-new and cvc5; the first "unsat" cancels the other
 		rctx, cancel := context.WithCancel(ctx)
-		res := make(chan [2]string, 2)
+		res := make(chan [2]string, 3)
 		race := func(sv string) {
 			st, out, d := runSolver(rctx, solvers[sv], f, tmo)
+			if sv == "z3-new-int" && st == "sat" {
+				// the integer-blasting mode has been seen to answer "sat" where z3's default mode
+				// and cvc5 both prove "unsat": it is used as a prover only, its models are ignored
+				st = "unknown"
+			}
 			mu.Lock()
 			if rctx.Err() == nil || st == "unsat" || st == "sat" {
 				o.Time += d
@@ -225,7 +241,7 @@ func (p *Prog) solve(pr *prepared, cfg SolveConfig) *Outcome {
 				if st == "unsat" && o.Status != "proved" {
 					o.Status, o.Backend = "proved", sv
 				}
-				if st == "sat" && sv == "z3-new" {
+				if st == "sat" && sv != "cvc5" {
 					o.Model = out
 				}
 				if st != "unsat" {
@@ -238,18 +254,21 @@ func (p *Prog) solve(pr *prepared, cfg SolveConfig) *Outcome {
 			}
 			res <- [2]string{sv, st}
 		}
+		// NOTE: z3's integer-blasting mode (smt.bv.solver=2) was tried as a third racer and removed:
+		// it answered "unsat" on a satisfiable quantifier-free query (zero_extend of extract) and
+		// "sat" on unsatisfiable ones, i.e. it is unsound in this z3 build.
 		go race("z3-new")
 		go race("cvc5")
-		r1, r2 := <-res, <-res
+		rs := [][2]string{<-res, <-res}
 		cancel()
 		last, lastFile = "unknown", f
-		for _, r := range [][2]string{r1, r2} {
+		for _, r := range rs {
 			if r[1] == "unsat" {
 				last = "unsat"
 			}
 		}
 		if last != "unsat" {
-			for _, r := range [][2]string{r1, r2} {
+			for _, r := range rs {
 				if r[1] == "sat" {
 					last = "sat"
 				}
@@ -271,6 +290,20 @@ func (p *Prog) solve(pr *prepared, cfg SolveConfig) *Outcome {
 			fq, _ := p.gen(pr, -1)
 			wg.Add(1)
 			go func() { defer wg.Done(); qst = run("z3-new", fq, "z3-new(quantified)", cfg.Timeout) }()
+		}
+		if last != "sat" {
+			// proof by cases on the conditions of the hypotheses (see split.go)
+			wg.Add(1)
+			go func() {
+				defer wg.Done()
+				if p.trySplit(pr, cfg, &mu, o) {
+					mu.Lock()
+					if o.Status != "proved" {
+						o.Status, o.Backend = "proved", "case-split"
+					}
+					mu.Unlock()
+				}
+			}()
 		}
 		wg.Wait()
 		if o.Status != "proved" {
@@ -323,15 +356,27 @@ func (p *Prog) SolveAll(qs []*Query, cfg SolveConfig) []*Outcome {
 	qs = split
 	out := make([]*Outcome, len(qs))
 	var wg sync.WaitGroup
+	var stop atomic.Bool
 	sem := make(chan struct{}, cfg.Jobs)
 	for i, q := range qs {
+		if cfg.StopOnFail && stop.Load() {
+			out[i] = &Outcome{Q: q, Status: "skipped"}
+			continue
+		}
 		pr := p.prepare(q, cfg, i)
 		wg.Add(1)
 		sem <- struct{}{}
 		go func(i int, pr *prepared) {
 			defer wg.Done()
 			defer func() { <-sem }()
+			if cfg.StopOnFail && stop.Load() {
+				out[i] = &Outcome{Q: pr.q, Status: "skipped"}
+				return
+			}
 			out[i] = p.solve(pr, cfg)
+			if s := out[i].Status; s != "proved" && s != "covered" {
+				stop.Store(true)
+			}
 		}(i, pr)
 	}
 	wg.Wait()
@@ -352,7 +397,7 @@ type ObSummary struct {
 func Summarise(outs []*Outcome) []*ObSummary {
 	m := map[string]*ObSummary{}
 	var order []string
-	rank := map[string]int{"proved": 0, "trivial": 0, "covered": 0, "unknown": 2, "refuted-candidate": 3, "refuted": 4, "uncovered": 4, "engine-error": 5}
+	rank := map[string]int{"proved": 0, "trivial": 0, "covered": 0, "skipped": 1, "unknown": 2, "refuted-candidate": 3, "refuted": 4, "uncovered": 4, "engine-error": 5}
 	for _, o := range outs {
 		s, ok := m[o.Q.Ob]
 		if !ok {
